@@ -2,7 +2,7 @@
 
    Clause table (statement of C16 -> what states it):
    | clause                                                      | stated by                                                   | status |
-   | stored record is read back identically from the patched object | C16_roundtrip_annotations, C16_roundtrip_pending, C16_status_store_reads_merge, C16_roundtrip_status_first_store | full for the annotation progress storage (every hash, prefix, v1/v2, verbosity, id, record, body, pending patch); status progress storage: C16_status_store_reads_merge (exact: the read-back is the RFC 7386 merge of the record into the old one, every path/id/record/body) and C16_roundtrip_status_first_store (identical for a first store of a flat null-free record); smart (default) progress storage: C16_roundtrip_smart, C16_smart_store_is_ann_store (full); other multi progress storages and the diff-base storages: D-tied on the same inputs + round-trip monitor |
+   | stored record is read back identically from the patched object | C16_roundtrip_annotations, C16_roundtrip_pending, C16_status_store_reads_merge, C16_roundtrip_status_first_store | full for the annotation progress storage (every hash, prefix, v1/v2, verbosity, id, record, body, pending patch); status progress storage: C16_status_store_reads_merge (exact: the read-back is the RFC 7386 merge of the record into the old one, every path/id/record/body) and C16_roundtrip_status_first_store (identical for a first store of a flat null-free record); smart (default) progress storage: C16_roundtrip_smart, C16_smart_store_is_ann_store (full); diff-base storages: C16_roundtrip_diffbase_annotations, C16_roundtrip_diffbase_status (full, every non-null essence incl. the empty one); other multi storages: D-tied on the same inputs + round-trip monitor |
    | can be purged completely                                    | C16_purged_completely, C16_purged_completely_status         | full for the annotation storage (fresh or any pending patch, all keys incl. v1 and -ofDRS); status storage: C16_purged_completely_status (fresh patch, every stanza path; pending patch: D-tied + monitor) |
    | never disturbs other handlers' records / other prefixes / user data | C16_isolation_annotations (store), C16_isolation_purge (purge, any pending patch), C16_isolation_touch (touch) | full for the annotation storage; status: monitor |
    | names are valid Kubernetes names                            | C16_suffix_shape, C16_len, C16_charset, C16_valid_names_partial / _refuted (F2), C16_v1_len_partial / _refuted (F12) | partial: exactly the two recorded findings are excluded |
@@ -253,3 +253,28 @@ Example C16_roundtrip_smart_nonvacuous :
            (JObj [("status", JObj [("kopf", JObj [("progress", JObj [("h1", JObj [("retries", JNum 7)]%string)]%string)]%string)]%string)]%string) (JObj [])
     = Ok patch.
 Proof. eexists. vm_compute. reflexivity. Qed.
+
+(* Last-handled state (diff-base storages): whatever essence is stored is read back from the object as patched by an RFC
+   7386 server - annotation storage: every hash, prefix, key name, v1/v2, body; status storage: every stanza path, body.
+   (Essences are mappings; the guard excludes only a literal null, which the real fetch reads as "nothing stored".) *)
+Theorem C16_roundtrip_diffbase_annotations : forall dg prefix dkey v1 ign essence body patch,
+  essence <> JNull ->
+  dstore dg (DAnn prefix dkey v1 ign) body (JObj []) essence = Ok patch ->
+  dfetch dg (DAnn prefix dkey v1 ign) (merge body patch) = Ok (Some essence).
+Proof. exact dann_roundtrip. Qed.
+Print Assumptions C16_roundtrip_diffbase_annotations.
+
+Theorem C16_roundtrip_diffbase_status : forall dg field ign essence body patch,
+  essence <> JNull ->
+  dstore dg (DStatus field ign) body (JObj []) essence = Ok patch ->
+  dfetch dg (DStatus field ign) (merge body patch) = Ok (Some essence).
+Proof. exact dstatus_roundtrip. Qed.
+Print Assumptions C16_roundtrip_diffbase_status.
+
+(* an EMPTY essence (the case of the seeded change C16_6) is within the theorem: {} is stored and read back as {} *)
+Example C16_roundtrip_diffbase_nonvacuous :
+  (exists patch, dstore const_dg (DAnn "kopf.zalando.org" "last-handled-configuration" false [])%string
+                        (JObj [("metadata", JObj [("annotations", JObj [("user", JStr "x")])])])%string (JObj []) (JObj []) = Ok patch)
+  /\ (exists patch, dstore const_dg (DStatus ["status"; "kopf"; "last"]%string []) (JObj [("status", JStr "odd")]%string) (JObj []) (JObj [("spec", JObj [])]%string) = Ok patch)
+  /\ JObj [] <> JNull.
+Proof. split; [eexists; vm_compute; reflexivity|]. split; [eexists; vm_compute; reflexivity|discriminate]. Qed.
